@@ -893,7 +893,7 @@ def _children(t):
     return [t[1]]
 
 
-def _close(ctx, got, want, exact):
+def _close(ctx, got, want, exact, scale=0.0):
     """got: python numbers; want: list of CF."""
     if len(got) != len(want):
         return False
@@ -904,7 +904,7 @@ def _close(ctx, got, want, exact):
                 return False
         else:
             wc = w.c()
-            if abs(g - wc) > 1e-9 * (1 + abs(wc)):
+            if abs(g - wc) > 1e-9 * (1 + abs(wc) + scale):   # scale: largest intermediate (cancellation)
                 return False
     return True
 
@@ -945,15 +945,18 @@ def oracle_node(ctx, t, xs):
         track = [Fraction(0), True]
         want = ref_eval(t, [fr(a) for a in x], track)
         exact = track[0] <= MAXMAG and track[1]
+        if track[0] > 10 ** 100:
+            continue            # float overflow territory: out of scope (exact-arithmetic idealisation)
         xe = o.domain.element(x)
         xcopy = xe.copy()
         got = flat(ctx, o(xe))
-        if not _close(ctx, got, want, exact):
+        scale = 0.0 if exact else float(track[0])
+        if not _close(ctx, got, want, exact, scale):
             return ('value', 'x=%r got %r expected %r' % (x, got, [w.c() for w in want]))
         if rr != 'F':
             buf = o.range.element(np.full(rr, np.nan))
             res = o(xe, out=buf)
-            if res is not buf or not _close(ctx, flat(ctx, buf), want, exact):
+            if res is not buf or not _close(ctx, flat(ctx, buf), want, exact, scale):
                 return ('value-inplace', 'x=%r got %r expected %r' % (x, flat(ctx, buf), [w.c() for w in want]))
         if flat(ctx, xe) != flat(ctx, xcopy):
             return ('mutates-x', 'x=%r became %r' % (x, flat(ctx, xe)))
